@@ -337,6 +337,50 @@ func (v *Verifier) PackageObligations() []*PkgObligation {
 		out = append(out, &PkgObligation{Name: "pkg#token-sites", Props: []string{"C02", "C12", "C11", "C01", "C13"}, Holds: len(bad) == 0 && sites > 0,
 			Detail: strings.Join(bad, "; "), Desc: fmt.Sprintf("all %d construction sites of token values pair the token type with a content of the right static type (string for textual tokens, rune for rune literals, byte for byte literals)", sites)})
 	}
+	// C02: the tree invariant treeOK is preserved by everything outside code (callbacks, callers) can reach:
+	// every exported function that may write a component treeOK reads has a postcondition `tree`
+	// (obligation <F>#post.tree), or writes such components not at all.
+	if _, has := v.spec.recdefs["treeOK"]; has {
+		cx := NewCtx(v.enc, v.spec, "pkg")
+		cx.tree = cx.InitState("P")
+		var bad []string
+		n := 0
+		if err := cx.computeTreeReads(); err != nil {
+			bad = append(bad, err.Error())
+		}
+		reads := cx.recReads["treeOK"]
+		for _, f := range v.eff.all {
+			if !isExportedFn(f) {
+				continue
+			}
+			e := v.eff.fns[f]
+			touches := ""
+			for cn := range reads {
+				if e.W[cn] || e.A[cn] {
+					touches = cn
+				}
+			}
+			if touches == "" && !e.Dynamic {
+				continue
+			}
+			n++
+			c := v.contracts.byKey[fnKey(f)]
+			ok := false
+			if c != nil {
+				for _, cl := range c.Ensures {
+					if cl.Label == "tree" && !cl.Free {
+						ok = true
+					}
+				}
+			}
+			if !ok {
+				bad = append(bad, fmt.Sprintf("%s may write %s but has no postcondition `tree`", fnDisplay(f), touches))
+			}
+		}
+		sort.Strings(bad)
+		out = append(out, &PkgObligation{Name: "pkg#tree-invariant-api", Props: []string{"C02", "C11", "C12"}, Holds: len(bad) == 0 && n > 0,
+			Detail: strings.Join(bad, "; "), Desc: fmt.Sprintf("all %d exported functions that can change the Code tree (or run a callback) have the postcondition treeOK()", n)})
+	}
 	// C14: every construct exists as function, *Statement method and *Group method with the same parameters
 	{
 		var bad []string
